@@ -327,6 +327,7 @@ func main() {
 		st := &stats{place: map[string]int{}}
 		rs := &raceStats{}
 		raceMs := map[string]int64{}
+		instFlagged, instRounds := 0, 0
 		if e.Replay != "" {
 			switch {
 			case strings.HasPrefix(e.Replay, "slot:"):
@@ -340,6 +341,28 @@ func main() {
 				bs, _ := strconv.ParseInt(f[2], 10, 64)
 				if bx >= 0 && bx < 4 {
 					runBurst(e, bs, bx, st)
+				}
+			case strings.HasPrefix(e.Replay, "long:"):
+				f := strings.Split(e.Replay, ":")
+				if len(f) == 5 {
+					bx, _ := strconv.Atoi(f[1])
+					n, _ := strconv.Atoi(f[2])
+					w, _ := strconv.Atoi(f[3])
+					ls, _ := strconv.ParseInt(f[4], 10, 64)
+					if bx >= 0 && bx < 4 && n > 0 && n < 20000 {
+						runLong(e, ls, bx, n, w, st)
+					}
+				}
+			case strings.HasPrefix(e.Replay, "instances:"):
+				f := strings.Split(e.Replay, ":")
+				bx, _ := strconv.Atoi(f[1])
+				bs, _ := strconv.ParseInt(f[2], 10, 64)
+				if bx >= 0 && bx < 4 {
+					// not forced: repeat until the screen flags an instance (bounded), else show one instance
+					fl := 0
+					for i := 0; i < 400 && fl == 0; i++ {
+						runInstances(e, bs, bx, st, &fl, i == 399)
+					}
 				}
 			case strings.HasPrefix(e.Replay, "stoprace:"):
 				f := strings.Split(e.Replay, ":")
@@ -366,7 +389,7 @@ func main() {
 		only := -1
 		if e.Search && e.Focus != "" {
 			for x, n := range xShort {
-				if strings.HasPrefix(strings.TrimPrefix(strings.TrimPrefix(e.Focus, "burst-"), "stop-vs-submit-"), n) {
+				if strings.HasPrefix(strings.TrimPrefix(strings.TrimPrefix(strings.TrimPrefix(strings.TrimPrefix(e.Focus, "burst-"), "stop-vs-submit-"), "instances-"), "long-backlog-"), n) {
 					only = x
 				}
 			}
@@ -395,6 +418,52 @@ func main() {
 			for i := 0; i < e.Scale(20, 200) && st.hangs < 3; i++ {
 				runBurst(e, e.Rnd.Int63(), x, st)
 			}
+			if x == xLine {
+				for i := 0; i < e.Scale(150, 1500) && st.hangs < 3; i++ {
+					runPlan(e, genReusePlan(e.Rnd, e.Thorough || e.Search), st, "-reuse")
+				}
+			}
+			// long histories: more than 1024 / 2048 pops with a backlog present
+			{
+				bulk := []int{1026, 2050}
+				win := []int{}
+				switch x {
+				case xRunner:
+					bulk = []int{1023, 1024, 1025, 1026, 1027, 2048, 2049, 2050, 2051, 3100}
+					win = []int{1100, 2100}
+				case xLine:
+					bulk = []int{1024, 1025, 1026, 2049, 2050}
+					win = []int{1100}
+				case xMulti:
+					bulk = []int{1025, 1026, 2050}
+				}
+				if e.Thorough || e.Search {
+					bulk = []int{1023, 1024, 1025, 1026, 1027, 1028, 2047, 2048, 2049, 2050, 2051, 3100, 4200}
+					win = []int{1100, 2100}
+				}
+				for _, n := range bulk {
+					if st.hangs < 3 {
+						runLong(e, e.Rnd.Int63(), x, n, 0, st)
+					}
+				}
+				for _, n := range win {
+					if st.hangs < 3 {
+						runLong(e, e.Rnd.Int63(), x, n, 1+e.Rnd.Intn(3), st)
+					}
+				}
+			}
+			// independent instances driven at the same time
+			ir := e.Scale(40, 300)
+			if x == xRunner {
+				ir = e.Scale(300, 1500)
+			}
+			if only >= 0 {
+				ir *= 3
+			}
+			for i := 0; i < ir && st.hangs < 3; i++ {
+				runInstances(e, e.Rnd.Int63(), x, st, &instFlagged, i%20 == 0)
+			}
+			instRounds += ir
 			// Stop racing with the enqueues themselves
 			rounds := e.Scale(600, 4000)
 			if x == xRunner {
@@ -416,5 +485,6 @@ func main() {
 		e.Meta["stop_vs_submit"] = map[string]int{"rounds": rs.rounds, "emitted_to_coq": rs.emitted, "flagged_by_screen": rs.flagged,
 			"accepted": rs.accepted, "refused": rs.refused, "accepted_never_run": rs.lost}
 		e.Meta["stop_vs_submit_ms"] = raceMs
+		e.Meta["instances"] = map[string]int{"rounds": instRounds, "flagged_by_screen": instFlagged}
 	})
 }
